@@ -15,7 +15,19 @@ import (
 // Col is a declared column of a generated table.
 type Col struct {
 	Name string `json:"name"`
-	Kind string `json:"kind"` // int float str bool time (time: CSV tables only, see TableOpts.Time)
+	Kind string `json:"kind"` // int float str bool time listf lists (time: CSV tables only, see TableOpts.Time; listf/lists: JSON tables only, see TableOpts.List)
+}
+
+// IsListKind: the column / expression kinds whose values are lists ("listf": list of Float, "lists": list of String; the
+// values themselves are JV{K:"list"}).
+func IsListKind(k string) bool { return k == "listf" || k == "lists" }
+
+// ListElemKind is the kind of the elements of a list kind.
+func ListElemKind(k string) string {
+	if k == "lists" {
+		return "str"
+	}
+	return "float"
 }
 
 // TableSpec is a generated file-backed table. Rows hold JVs of the declared kind or null.
@@ -126,6 +138,23 @@ func (t TableSpec) Render() string {
 			case "str":
 				s, _ := json.Marshal(v.S)
 				buf.Write(s)
+			case "list":
+				buf.WriteString("[")
+				for j, e := range v.L {
+					if j > 0 {
+						buf.WriteString(",")
+					}
+					switch e.K {
+					case "float":
+						buf.WriteString(strconv.FormatFloat(e.Float(), 'f', -1, 64))
+					case "str":
+						s, _ := json.Marshal(e.S)
+						buf.Write(s)
+					default:
+						panic("json list cells have no " + e.K)
+					}
+				}
+				buf.WriteString("]")
 			default:
 				panic("json tables have no " + v.K)
 			}
@@ -148,6 +177,12 @@ type TableOpts struct {
 	// Time: CSV tables may hold Time columns (RFC3339 cells, one instant in several zone spellings); each column of a CSV
 	// table becomes a time column with probability 1/7, i.e. roughly a third of the CSV tables have one. Never in JSON tables.
 	Time bool
+	// List: a JSON table holds ONE list column (JSON arrays of small integral numbers, octosql type [Float], or - a third of
+	// them - of short strings, [String]) with probability 1/4; cells come from a small pool in which lists that are a proper
+	// prefix of another one are frequent (lengths differing by 1 and by 2 or more, the empty list included). The first row's
+	// list is never empty, so the inferred element type is never the untyped one of []. Never in CSV tables (a CSV cell has
+	// no list syntax). With KeyPool the list column is never the key column.
+	List bool
 }
 
 var strPool = []string{"x", "y", "z", "xa", "xb", "x y", "y,z", "z\"q", "xA", "yq", "xab", "zz"}
@@ -197,6 +232,94 @@ func TimeCellText(v JV) string {
 	return tm.Format(time.RFC3339)
 }
 
+// ---- list cells --------------------------------------------------------------------------------------------------------
+
+func flist(xs ...int) JV {
+	l := make([]JV, len(xs))
+	for i, x := range xs {
+		l[i] = FromFloat(float64(x))
+	}
+	return JV{K: "list", L: l}
+}
+
+func slist(xs ...string) JV {
+	l := make([]JV, len(xs))
+	for i, x := range xs {
+		l[i] = Str(x)
+	}
+	return JV{K: "list", L: l}
+}
+
+// listPoolF / listPoolS: the empty list (the first two entries: listCell skips them for a first row), the prefix chain
+// [] < [1] < [1,2] < [1,2,3] < [1,2,3,4] (length differences of 1, 2, 3 and 4) and lists that differ in an element.
+var listPoolF = []JV{flist(), flist(), flist(1), flist(1), flist(1, 2), flist(1, 2), flist(1, 2, 3), flist(1, 2, 3), flist(1, 2, 3, 4), flist(1, 3), flist(2), flist(2, 1), flist(0, 5)}
+var listPoolS = []JV{slist(), slist(), slist("x"), slist("x"), slist("x", "y"), slist("x", "y"), slist("x", "y", "z"), slist("x", "y", "z"), slist("x", "z"), slist("y"), slist("xa", "x y")}
+
+// listKeyPoolF: the values of a list-typed join key (a prefix chain with length differences 1, 2 and 3).
+var listKeyPoolF = []JV{flist(1), flist(1, 2), flist(1, 2, 3), flist()}
+
+func listCell(t *rapid.T, kind string, nonEmpty bool, label string) JV {
+	pool := listPoolF
+	if kind == "lists" {
+		pool = listPoolS
+	}
+	if nonEmpty {
+		pool = pool[2:]
+	}
+	return rapid.SampledFrom(pool).Draw(t, label)
+}
+
+// ListIsProperPrefix: a is a proper prefix of b (both lists).
+func ListIsProperPrefix(a, b JV) bool {
+	if a.K != "list" || b.K != "list" || len(a.L) >= len(b.L) {
+		return false
+	}
+	for i := range a.L {
+		if a.L[i].K != b.L[i].K || a.L[i].F != b.L[i].F || a.L[i].S != b.L[i].S {
+			return false
+		}
+	}
+	return true
+}
+
+// addListTwins: in half of the tables with a list column, one or two rows (never the first) are replaced by a copy of
+// another row that differs ONLY in the list cell, the two lists being a proper prefix of one another (length difference 1
+// or 2): rows that an order which forgets, or mis-reports, the length of a list cannot tell apart.
+func addListTwins(t *rapid.T, spec *TableSpec, label string) {
+	for i, c := range spec.Cols {
+		if !IsListKind(c.Kind) || len(spec.Rows) < 2 || !rapid.Bool().Draw(t, label+"twins") {
+			continue
+		}
+		ntw := rapid.IntRange(1, 2).Draw(t, label+"ntwins")
+		for w := 0; w < ntw; w++ {
+			lab := fmt.Sprintf("%stwin%d", label, w)
+			src := rapid.IntRange(0, len(spec.Rows)-1).Draw(t, lab+"src")
+			dst := rapid.IntRange(1, len(spec.Rows)-1).Draw(t, lab+"dst")
+			if src == dst || spec.Rows[src][i].K != "list" {
+				continue
+			}
+			l := spec.Rows[src][i].L
+			var nl []JV
+			if len(l) > 0 && rapid.Bool().Draw(t, lab+"shorter") {
+				nl = append(nl, l[:rapid.IntRange(0, len(l)-1).Draw(t, lab+"cut")]...)
+			} else {
+				nl = append(nl, l...)
+				ext := rapid.IntRange(1, 2).Draw(t, lab+"ext")
+				for e := 0; e < ext; e++ {
+					if c.Kind == "lists" {
+						nl = append(nl, Str("y"))
+					} else {
+						nl = append(nl, FromFloat(float64(len(nl)+1)))
+					}
+				}
+			}
+			row := append([]JV{}, spec.Rows[src]...)
+			row[i] = JV{K: "list", L: nl}
+			spec.Rows[dst] = row
+		}
+	}
+}
+
 // CellOf draws a non-null cell of a kind from a small, duplicate-heavy pool.
 func CellOf(t *rapid.T, kind string, label string) JV {
 	switch kind {
@@ -210,6 +333,8 @@ func CellOf(t *rapid.T, kind string, label string) JV {
 		return Str(rapid.SampledFrom(strPool).Draw(t, label))
 	case "time":
 		return timeCell(t, timePoolSec, label)
+	case "listf", "lists":
+		return listCell(t, kind, false, label)
 	}
 	panic("bad kind " + kind)
 }
@@ -228,7 +353,7 @@ func Table(t *rapid.T, o TableOpts) TableSpec {
 		// "time" is never drawn like the other kinds: see TableOpts.Time
 		var ks []string
 		for _, k := range kinds {
-			if k != "time" && !(format == "json" && k == "int") {
+			if k != "time" && !IsListKind(k) && !(format == "json" && k == "int") {
 				ks = append(ks, k)
 			}
 		}
@@ -256,6 +381,16 @@ func Table(t *rapid.T, o TableOpts) TableSpec {
 		spec.Cols[0].Name = "k"
 		if spec.Cols[0].Kind == "bool" {
 			spec.Cols[0].Kind = kinds[0]
+		}
+	}
+	if o.List && format == "json" && rapid.IntRange(0, 3).Draw(t, o.Name+"list") == 0 {
+		lo := 0
+		if o.KeyPool {
+			lo = 1
+		}
+		if lo < ncols {
+			i := rapid.IntRange(lo, ncols-1).Draw(t, o.Name+"listcol")
+			spec.Cols[i].Kind = rapid.SampledFrom([]string{"listf", "listf", "lists"}).Draw(t, o.Name+"listkind")
 		}
 	}
 	maxRows := o.MaxRows
@@ -294,10 +429,15 @@ func Table(t *rapid.T, o TableOpts) TableSpec {
 				}
 				continue
 			}
+			if IsListKind(c.Kind) {
+				row[i] = listCell(t, c.Kind, r == 0, label)
+				continue
+			}
 			row[i] = CellOf(t, c.Kind, label)
 		}
 		spec.Rows = append(spec.Rows, row)
 	}
+	addListTwins(t, &spec, o.Name)
 	// keep the data consistent with what the 100-row preview infers: no NULL after the preview in a column
 	// whose preview had none (that is C24's domain, not a relational-semantics question)
 	for i := range spec.Cols {
